@@ -522,4 +522,41 @@ theorem Evolves.le {mm : Murmur} {f g : Filter} (hlen : f.bits.length < 2 ^ 29) 
     cases hrun
     exact ih.trans hle
 
+/-! ### filters loaded from the wire -/
+
+theorem loadFilter_bounds (b : Bytes) (f : Filter) (h : loadFilter b = some f) :
+    f.bits.length ≤ maxFilterLoadFilterSize ∧ f.hashFuncs.toNat ≤ maxFilterLoadHashFuncs := by
+  unfold loadFilter at h
+  split at h
+  · cases h
+  · rename_i count r _
+    split at h
+    · cases h
+    · rename_i hc
+      split at h
+      · cases h
+      · rename_i hlen
+        simp only [] at h
+        split at h
+        · cases h
+        · rename_i hf r1 _
+          split at h
+          · cases h
+          · rename_i tw r2 _
+            split at h
+            · cases h
+            · rename_i hhf
+              have hb : (r.take count).length ≤ maxFilterLoadFilterSize := by
+                rw [List.length_take]; omega
+              have hh : (UInt32.ofNat hf).toNat ≤ maxFilterLoadHashFuncs := by
+                rw [UInt32.toNat_ofNat']
+                have : hf % 2 ^ 32 ≤ hf := Nat.mod_le _ _
+                omega
+              split at h
+              · cases h
+              · split at h
+                · cases h; exact ⟨hb, hh⟩
+                · cases h
+                · cases h; exact ⟨hb, hh⟩
+
 end ElaVerif.Bloom
